@@ -390,10 +390,14 @@ fn training(t: u64) -> Vec<Vec<u8>> {
         4 => rep(&[0], 5).chain(rep(&[0, 0], 5)).chain(rep(&[1, 2, 3], 2)).collect(),
         5 => (0..=255u8).map(|b| vec![b, b]).chain(rep(b"hot", 100)).collect(), // every first byte seen: no tag is free
         6 => (0..40u8).flat_map(|b| vec![vec![200, b]; 3]).collect(),            // many distinct strings of equal weight
-        _ => rep(&[255, 255], 9).chain(rep(&[254], 3)).collect(),
+        7 => rep(&[255, 255], 9).chain(rep(&[254], 3)).collect(),
+        // few pushes, all distinct: every string holds 1/3 (all) of the statistics; the summary's buffer is as long as
+        // it is full (a clone of it has no spare capacity)
+        8 => vec![b"abc".to_vec(), b"xyz".to_vec(), b"q".to_vec()],
+        _ => vec![b"solo".to_vec()],
     }
 }
-pub const N_TRAIN: u64 = 8;
+pub const N_TRAIN: u64 = 10;
 
 /// Probe strings, relative to the training set: dictionary entries, prefixes/extensions of them, strings whose first
 /// byte is a low tag value (0, 1, 2: the tags handed to heavy hitters), all-one-byte strings, the empty string.
@@ -1255,9 +1259,9 @@ pub fn harnesses() -> Vec<H> {
         H { name: "huffman_forms", props: &["C20", "C10", "C06"], nargs: 2, pre: pre_hforms, doms: doms_hforms, run: run_hforms, panic_ok: false,
             bound: "HuffmanContainer<u16> raw and coded, 4 profiles: [B;N], &[B;N], Vec<B>, &Vec<B>, raw and encoded read items of another container versus &[B] on twins in the same state (indices, reads), and the next generation merged from each twin (index and read of a probe)", kani: false },
         H { name: "dictionary_quick", props: &["C07", "C01", "C02", "C04", "C08", "C10"], nargs: 7, pre: pre_dict, doms: doms_dict_quick, run: run_dict, panic_ok: false,
-            bound: "CodecRegion<DictionaryCodec>: 8 x 2 training sets over 1..2 source regions; 20 probes (empty, dictionary entries, prefixes/extensions, first byte an assigned tag, eight one-byte strings) x 3; second merge generation; reserve_regions on the merged region and on a source (twice), earlier reads unchanged and a further push like on a twin; clear; every push refused or read back exactly, heavy hitters cost 1 byte", kani: false },
+            bound: "CodecRegion<DictionaryCodec>: 10 x 2 training sets (incl. three distinct strings pushed once each and a single push) over 1..2 source regions; 20 probes (empty, dictionary entries, prefixes/extensions, first byte an assigned tag, eight one-byte strings) x 3; second merge generation; reserve_regions on the merged region and on a source (twice), earlier reads unchanged and a further push like on a twin; clear; every push refused or read back exactly, heavy hitters cost 1 byte", kani: false },
         H { name: "dictionary_full", props: &["C07"], nargs: 7, pre: pre_dict, doms: doms_dict, run: run_dict, panic_ok: false,
-            bound: "CodecRegion<DictionaryCodec>: 8 x 3 training sets over 1..2 source regions; probes: all 256 one-byte strings, dictionary entries, their prefixes/extensions, strings whose first byte is an assigned tag, the empty string (268 probes x 5); second merge generation; clear; every push refused or read back exactly, heavy hitters cost 1 byte", kani: false },
+            bound: "CodecRegion<DictionaryCodec>: 10 x 3 training sets (incl. three distinct strings pushed once each and a single push) over 1..2 source regions; probes: all 256 one-byte strings, dictionary entries, their prefixes/extensions, strings whose first byte is an assigned tag, the empty string (268 probes x 5); second merge generation; clear; every push refused or read back exactly, heavy hitters cost 1 byte", kani: false },
         H { name: "dictionary_many", props: &["C07", "C01", "C10"], nargs: 4, pre: pre_many, doms: doms_many, run: run_many, panic_ok: false,
             bound: "1023 / 1024 / 1500 / 2600 distinct strings plus a heavy hitter at 1/2, 1/3, 1/4 of the pushes that sorts before / between / after them (crosses MisraGries::tidy), one or two source regions, merged, then probed; and 3-4 source regions with 257/260/300 private strings (x3) each plus a shared string (x2) that dominates only their union; three generations with 260-400 distinct values plus one value that is a dictionary hit in the second generation and has no tag in the third: everything a source stored is accepted and read back; two sources where the rarest string of one is the dominant string of the other, merged in both orders", kani: false },
     ]
